@@ -9,7 +9,7 @@ import (
 func init() { register("C03", propC03) }
 
 func propC03(c *Ctx) {
-	c.Explanation = "Decides admission and reset construction as dominance / def-use facts for all inputs: (H1) endpoints are sent on acceptedChan only by deliverAccepted (and Listen's re-queue of already admitted ones); (H2) deliverAccepted is called only after createEndpointAndPerformHandshake returned nil error - whose success return is dominated by handshake.execute()==nil - or, in SYN-cookie mode, only for a segment whose flags are exactly ACK, whose cookie validates and decodes to an MSS index inside the table, after createConnectedEndpoint succeeded, with iss = ack-1 and irs = seq-1; (H3) handshake.state becomes Completed only under checkAck==true, with ACK set (SYN-RCVD) or SYN and ACK set (SYN-SENT); (H4) checkAck's complete decision table over {ACK set, ack == iss+1} is !(ACK && ack != iss+1), and on the false result exactly one RST|ACK is sent whose sequence number is the offending acknowledgement number; (H5) replyWithReset sends RST|ACK with seq = the segment's ack number (0 without ACK) and ack = seq+logical length; HandleUnknownDestinationPacket replies exactly once and never to a RST; (H6) the listener dispatches on the whole flag byte (== SYN, == ACK), not on a mask; (H7) the SYN-cookie pipeline keeps 32 bits end to end: no lossy integer narrowing in encodeMSS/createCookie/isCookieValid and the validated data is compared as decoded. (H8) the length used for a reset's ACK number counts SYN and FIN separately (shared path table of logicalLen); H3 also tables the initial handshake states (resetState, resetToSynRcvd). (H9) isRegistered follows every registration before the registering function can return and is cleared with Close's inline unregistration (shared with C09/D8). (H10) the half-open connection counter: increment and admission exactly below the threshold, decrement on completion. NOT decided: strength of the cookie hash, behaviour over sequences of handshake segments, cookie expiry timing."
+	c.Explanation = "Decides admission and reset construction as dominance / def-use facts for all inputs: (H1) endpoints are sent on acceptedChan only by deliverAccepted (and Listen's re-queue of already admitted ones); (H2) deliverAccepted is called only after createEndpointAndPerformHandshake returned nil error - whose success return is dominated by handshake.execute()==nil - or, in SYN-cookie mode, only for a segment whose flags are exactly ACK, whose cookie validates and decodes to an MSS index inside the table, after createConnectedEndpoint succeeded, with iss = ack-1 and irs = seq-1; (H3) handshake.state becomes Completed only under checkAck==true, with ACK set (SYN-RCVD) or SYN and ACK set (SYN-SENT); (H4) checkAck's complete decision table over {ACK set, ack == iss+1} is !(ACK && ack != iss+1), and on the false result exactly one RST|ACK is sent whose sequence number is the offending acknowledgement number; (H5) replyWithReset sends RST|ACK with seq = the segment's ack number (0 without ACK) and ack = seq+logical length; HandleUnknownDestinationPacket replies exactly once and never to a RST; (H6) the listener dispatches on the whole flag byte (== SYN, == ACK), not on a mask; (H7) the SYN-cookie pipeline keeps 32 bits end to end: no lossy integer narrowing in encodeMSS/createCookie/isCookieValid and the validated data is compared as decoded. (H8) the length used for a reset's ACK number counts SYN and FIN separately (shared path table of logicalLen); H3 also tables the initial handshake states (resetState, resetToSynRcvd). (H9) isRegistered follows every registration before the registering function can return and is cleared with Close's inline unregistration (shared with C09/D8). (H10) the half-open connection counter: increment and admission exactly below the threshold, decrement on completion. (H11) no examined callee error ends in a nil return in package tcp except four reviewed conversions; H3 also tables handshake.handleSegment, H1 Accept. NOT decided: strength of the cookie hash, behaviour over sequences of handshake segments, cookie expiry timing."
 	hs := "(*tcp.handshake)."
 	ep := "(*tcp.endpoint)."
 	rst, ack, syn := "(*tcp.segment).flagIsSet($1, 4)", "(*tcp.segment).flagIsSet($1, 16)", "(*tcp.segment).flagIsSet($1, 2)"
